@@ -118,7 +118,8 @@ Proof.
     destruct (tm_state st t) as [[]|]; constructor; reflexivity.
   - (* Rollback *) destruct (sess st s) as [t|]; [|apply epres_refl]. unfold tm_abort. cbn.
     destruct (tm_state st t) as [[]|]; constructor; reflexivity.
-  - (* DropSession *) constructor; reflexivity.
+  - (* DropSession *) destruct (sess st s) as [t|]; [|apply epres_refl]. unfold tm_abort. cbn.
+    destruct (tm_state st t) as [[]|]; constructor; reflexivity.
   - (* CreateNode *) destruct (ctx st s) as [e0 t0].
     pose proof (epres_create_node_with_props st labels props e0 t0) as H.
     destruct (create_node_with_props st labels props e0 t0) as [st1 id]. exact H.
@@ -486,10 +487,10 @@ Proof.
   - (* StoreProp *) unfold classify_read in Hc. destruct (ctx st s). discriminate.
 Qed.
 
-(** every verdict of a history carries a class: 1..7 for a read, 11..17 for the read of a write statement *)
+(** every verdict of a history carries a class: 1..6 for a read, 11..16 for the read of a write statement *)
 Lemma verdicts_classified_full : forall ops st sp i, inv st -> adj_inv st -> paired st sp -> epaired st sp ->
   forall p c, In (p, c) (verdicts st sp i ops (map canon (snd (run_from st ops)))) ->
-  1 <= c <= 7 \/ 11 <= c <= 17.
+  1 <= c <= 6 \/ 11 <= c <= 16.
 Proof.
   induction ops as [|o r IH]; intros st sp i Hi Ha Hp He p c Hin; [contradiction|].
   rewrite run_from_cons in Hin. cbn [snd map verdicts] in Hin.
@@ -516,7 +517,7 @@ Qed.
 
 (** snapshot_outside_K, all read kinds *)
 Lemma snapshot_outside_K_l : forall ops,
-  (forall c, 1 <= c <= 7 -> c01_k c ops (mrun ops) = false) -> snapshot_ok ops (mrun ops) = true.
+  (forall c, 1 <= c <= 6 -> c01_k c ops (mrun ops) = false) -> snapshot_ok ops (mrun ops) = true.
 Proof.
   intros ops Hk. unfold snapshot_ok. apply (verdicts_nil ops init sinit 0).
   destruct (verdicts init sinit 0 ops (mrun ops)) as [|[p c] rest] eqn:E; [reflexivity|exfalso].
@@ -525,7 +526,7 @@ Proof.
   destruct (verdicts_classified_full ops init sinit 0 inv_init adj_init paired_init epaired_init p c Hin) as [Hc|Hc].
   - specialize (Hk c Hc). unfold c01_k, c01_k_of, c01_fails in Hk. rewrite E in Hk. cbn [existsb snd] in Hk.
     rewrite Z.eqb_refl in Hk. discriminate.
-  - assert (Hc' : 1 <= c - 10 <= 7) by lia. specialize (Hk (c - 10) Hc'). unfold c01_k, c01_k_of, c01_fails in Hk.
+  - assert (Hc' : 1 <= c - 10 <= 6) by lia. specialize (Hk (c - 10) Hc'). unfold c01_k, c01_k_of, c01_fails in Hk.
     rewrite E in Hk. cbn [existsb snd] in Hk.
     replace (c - 10 + 10) with c in Hk by lia. rewrite Z.eqb_refl, orb_true_r in Hk. discriminate.
 Qed.
@@ -543,11 +544,11 @@ Qed.
 
 (** the one-evaluation report of the check is the pointwise statement *)
 Lemma c01_report_spec : forall ops outs,
-  c01_report ops outs = (chk_hist ops outs, c01_fails ops outs, map (fun c => c01_k c ops outs) [1; 2; 3; 4; 5; 6; 7]).
+  c01_report ops outs = (chk_hist ops outs, c01_fails ops outs, map (fun c => c01_k c ops outs) [1; 2; 3; 4; 5; 6]).
 Proof. reflexivity. Qed.
 Lemma c02_report_spec : forall ops outs ds,
   c02_report ops outs ds = (chk_hist ops outs, c02_fails ops outs ds, c02_checked ops outs ds,
-                            map (fun c => c02_k c ops outs ds) [1; 2; 4; 5], ctl_fails ops outs).
+                            map (fun c => c02_k c ops outs ds) [1; 2; 5], ctl_fails ops outs).
 Proof. reflexivity. Qed.
 
 (** ** transaction control follows the specification's state machine, along every history *)
@@ -570,6 +571,7 @@ Proof.
     + rewrite (proj1 (rollback_ok_l st s t Hi Hs)).
       destruct (s_view sp s) eqn:E; [reflexivity|]. apply Hv in E. congruence.
     + cbn [step]. rewrite Hs, (proj1 (Hv s) Hs). reflexivity.
+  - (* DropSession *) rewrite (drop_out st s). reflexivity.
 Qed.
 Lemma tx_control_follows_spec_l : forall ops, ctl_fails ops (mrun ops) = [].
 Proof. intros ops. apply (ctl_ok_from ops init sinit 0 inv_init paired_init). Qed.
